@@ -234,18 +234,10 @@ example (P : FloatIO) :
 
 /-! ## JSON → MessagePack -/
 
-/-- **`json_to_msgpack_fidelity`**, for EVERY input and both supply modes.  Let
-`docs` be the documents the JSON source loop hands out for `bs` (all of them
-complete; on a failing input the ones before the failure).  If they are
-well-formed (integers within −2^63 … 2^64−1, strings and keys Unicode scalar
-values, floats in `Q` — what the parser produces), fit MessagePack's 32-bit
-lengths (`Sized`) and nest less than 128 deep, then the translation's output,
-read by the reference MessagePack decoder, is: the same number of documents, in
-the same order, each denoting what the JSON document denotes — map entries in
-entry order, strings code point for code point, integers as integers (never a
-float, whatever the width needed), floats as the binary64 serde_json parsed —
-and the verdict is the source loop's.  rmp_serde's serializer refuses nothing. -/
-theorem json_to_msgpack_fidelity (P : FloatIO) (Q : List Nat → Prop)
+/-- The fidelity statement for the documents a JSON source loop produced, given
+that they are well-formed (`json_to_msgpack_fidelity` discharges that for every
+input; the corollaries below instantiate it for document lists). -/
+theorem json_to_msgpack_fidelity_of_wf (P : FloatIO) (Q : List Nat → Prop)
     (hQ : ∀ src, Q src → P.parse src < 2 ^ 64) (mode : Mode) (bs : List Nat)
     (hdocs : ∀ d ∈ (jsonSource mode bs).1, Json.WF Q d ∧ Sized d ∧ Json.depthOf d < Json.depthLimit) :
     ∃ ms, Msgpack.decodeMany (json2msgpack P mode bs).out Msgpack.depthLimit = (ms, .ok) ∧
@@ -274,6 +266,35 @@ theorem json_to_msgpack_fidelity (P : FloatIO) (Q : List Nat → Prop)
   · rw [hv]; cases (jsonSource mode bs).2 <;> simp
   · intro e; rw [hv]; cases (jsonSource mode bs).2 <;> simp
 
+/-- **`json_to_msgpack_fidelity`**, for EVERY input byte string and both supply
+modes, with no hypothesis on what was parsed.  Let `docs` be the documents the
+JSON source loop hands out for `bs` (all of them complete; on a failing input
+the ones before the failure).  They are well-formed and nest < 128 because the
+parser only produces such values (`Json.parse_wf`).  If they fit MessagePack's
+32-bit lengths (`Sized`: string byte lengths and element counts below 2^32 —
+a limit of the format) then the translation's output, read by the reference
+MessagePack decoder, is: the same number of documents, in the same order, each
+denoting what the JSON document denotes — map entries in entry order, strings
+code point for code point, integers as integers (never a float, whatever the
+width needed), floats as the binary64 serde_json parsed — and the verdict is the
+source loop's; rmp_serde's serializer refuses nothing.  The one hypothesis on
+the float boundary: `parse` yields a 64-bit pattern (`hP64`; irrelevant for
+float-free input, see `json_to_msgpack_fidelity_documents`). -/
+theorem json_to_msgpack_fidelity (P : FloatIO) (hP64 : ∀ src, P.parse src < 2 ^ 64) (mode : Mode)
+    (bs : List Nat) (hs : ∀ d ∈ (jsonSource mode bs).1, Sized d) :
+    ∃ ms, Msgpack.decodeMany (json2msgpack P mode bs).out Msgpack.depthLimit = (ms, .ok) ∧
+      ms.length = (jsonSource mode bs).1.length ∧
+      ms.map denM = (jsonSource mode bs).1.map (denJ P) ∧
+      ((json2msgpack P mode bs).verdict = .ok ↔ (jsonSource mode bs).2 = .ok) ∧
+      (∀ e, (json2msgpack P mode bs).verdict ≠ .ser e) := by
+  apply json_to_msgpack_fidelity_of_wf P (fun _ => True) (fun src _ => hP64 src) mode bs
+  intro d hd
+  have hwf : Json.WF (fun _ => True) d ∧ Json.depthOf d < Json.depthLimit := by
+    cases mode
+    · exact Json.sliceLoop_docs_wf bs d hd
+    · exact Json.readerLoop_docs_wf _ bs (Nat.le_refl _) d hd
+  exact ⟨hwf.1, hs d hd, hwf.2⟩
+
 /-- The same for document lists: EVERY list of float-free well-formed JSON
 documents nested less than 128 deep and within MessagePack's lengths, spelled
 compactly and separated by ANY non-empty whitespace runs, in both supply
@@ -288,7 +309,7 @@ theorem json_to_msgpack_fidelity_documents (P : FloatIO) (F : ExtFloat) (mode : 
     cases mode
     · exact Json.sliceLoop_joinDocs F l hl
     · exact Json.readerLoop_joinDocs F l hl
-  obtain ⟨ms, h1, _, h3, h4, _⟩ := json_to_msgpack_fidelity P (fun _ => False) (fun _ h => h.elim) mode
+  obtain ⟨ms, h1, _, h3, h4, _⟩ := json_to_msgpack_fidelity_of_wf P (fun _ => False) (fun _ h => h.elim) mode
     (Json.joinDocs F l) (by
       rw [hsrc]
       intro d hd
@@ -310,7 +331,7 @@ theorem json_to_msgpack_fidelity_floats (P : FloatIO) (F : ExtFloat) (Q : List N
     cases mode
     · exact Json.sliceLoop_writeDocsP F Q hF docs hd
     · exact Json.readerLoop_writeDocsP F Q hF docs hd
-  obtain ⟨ms, h1, _, h3, h4, _⟩ := json_to_msgpack_fidelity P Q hQ mode (Json.writeDocs F docs) (by
+  obtain ⟨ms, h1, _, h3, h4, _⟩ := json_to_msgpack_fidelity_of_wf P Q hQ mode (Json.writeDocs F docs) (by
     rw [hsrc]
     intro d hdm
     exact ⟨(hd d hdm).1, hs d hdm, (hd d hdm).2⟩)
@@ -571,6 +592,7 @@ example : (⟨fun _ => 0x3FF8000000000000, fun _ => [0x31, 0x2E, 0x35], fun _ =>
 #print axioms m2j_slice_answer_eq_reader
 #print axioms unrepresentable_is_error
 #print axioms bin_value_becomes_array
+#print axioms json_to_msgpack_fidelity_of_wf
 #print axioms json_to_msgpack_fidelity
 #print axioms json_to_msgpack_fidelity_documents
 #print axioms json_to_msgpack_fidelity_floats
